@@ -115,7 +115,7 @@ def refusal_sweep(ctx, rng):
                     return dict(problem="the reference login itself was refused"), n
                 if setting:
                     c.feed(cl.frame(bytes([cl.COM_QUERY]) + f"SET character_set_results = '{setting}'".encode(), 0)); c.take()
-                resp = cl.native_scramble(b"wrong", nonce)
+                resp = cl.native_scramble(b"wrong", nonce) if (n % 3) else b""       # every third attempt: no proof at all
                 cu = bytes([cl.COM_CHANGE_USER]) + name.encode("utf8") + b"\0" + bytes([len(resp)]) + resp + b"\0" + struct.pack("<H", 45) + b"mysql_native_password\0"
                 c.feed(cl.frame(cu, 0))
                 rep = cl.split_raw(c.take())
@@ -131,6 +131,26 @@ def refusal_sweep(ctx, rng):
                                 refusal=[p[:40].hex() for _, p in rep], application_saw=repr(log), reply=[p[:12].hex() for _, p in rep2]), n
             finally:
                 env.close()
+    # the handshake itself with no proof / a wrong proof for an account that has a password: refused, nothing served
+    for resp_kind in ("empty", "wrong"):
+        env = impl.Env(own_sleep=False)
+        try:
+            log = []
+            S.LOG = log
+            srv = impl.make_server(env, S, identity_provider=IP())
+            c = impl.Conn(env, srv)
+            env.settle()
+            nonce = cl.parse_handshake_v10(cl.split_raw(c.take())[0][1])["nonce"]
+            c.feed(cl.frame(cl.handshake_response(user=b"alice", auth=b"" if resp_kind == "empty" else cl.native_scramble(b"no", nonce), charset=45), 1))
+            rep = cl.split_raw(c.take())
+            n += 1
+            if c.blocked_on() != "done":
+                c.feed(cl.frame(bytes([cl.COM_QUERY]) + b"SELECT answer FROM t", 0))
+            rep2 = cl.split_raw(c.take())
+            if (rep and rep[-1][1][:1] == b"\x00") or log or any(p[:1] != b"\xff" for _, p in rep2):
+                return dict(problem="a handshake without a valid proof was accepted / served", proof=resp_kind, application_saw=repr(log)), n
+        finally:
+            env.close()
     return None, n
 
 
